@@ -44,6 +44,7 @@ VARIABLES st,           \* "Inited" | "Running"                      (state_)
           rbuf,         \* recv_buff_ : offsets read, not yet consumed by the user
           thr,          \* receive threshold
           pclosed,      \* the peer closed (its side of) the stream
+          pabort,       \* ... by aborting (RST): the read that finds the kernel empty fails with ECONNRESET instead of returning 0
           eofRep,       \* number of read-zero / disconnected notifications
           \* ghosts
           nsent,        \* bytes accepted by send()
@@ -53,7 +54,7 @@ VARIABLES st,           \* "Inited" | "Running"                      (state_)
           pres, presFrom, \* last presentation and the consumed count at that time
           lastComplete, \* TRUE in the state right after a send-complete notification
           ndis
-vars == <<st, alive, cb, sendq, kout, got, wrArmed, kin, rbuf, thr, pclosed, eofRep,
+vars == <<st, alive, cb, sendq, kout, got, wrArmed, kin, rbuf, thr, pclosed, pabort, eofRep,
           nsent, npw, consumed, presented, pres, presFrom, lastComplete, ndis>>
 
 Seg(a, n)  == [i \in 1..n |-> a + i]               \* offsets a+1 .. a+n
@@ -65,7 +66,7 @@ readTot    == npw - Len(kin)                        \* bytes read from the kerne
 Init ==
   /\ st = (IF Tcp THEN "Running" ELSE "Inited") /\ alive = "alive" /\ cb = 0
   /\ sendq = <<>> /\ kout = <<>> /\ got = <<>> /\ wrArmed = FALSE
-  /\ kin = <<>> /\ rbuf = <<>> /\ thr \in Thrs /\ pclosed = FALSE /\ eofRep = 0
+  /\ kin = <<>> /\ rbuf = <<>> /\ thr \in Thrs /\ pclosed = FALSE /\ pabort = FALSE /\ eofRep = 0
   /\ nsent = 0 /\ npw = 0 /\ consumed = 0 /\ presented = 0 /\ pres = <<>> /\ presFrom = 0
   /\ lastComplete = FALSE /\ ndis = 0
 
@@ -81,7 +82,7 @@ Send(n) ==
             /\ sendq' = sendq \o Drop(new, k)
             /\ wrArmed' = TRUE
   /\ lastComplete' = FALSE
-  /\ UNCHANGED <<st, alive, cb, got, kin, rbuf, thr, pclosed, eofRep, npw, consumed, presented, pres, presFrom, ndis>>
+  /\ UNCHANGED <<st, alive, cb, got, kin, rbuf, thr, pclosed, pabort, eofRep, npw, consumed, presented, pres, presFrom, ndis>>
 
 (* --- BufferedFd::enable / disable ------------------------------------------ *)
 Enable ==
@@ -90,13 +91,13 @@ Enable ==
   /\ st' = "Running"
   /\ wrArmed' = (sendq # <<>> /\ "noarm" \notin Bugs)    \* intended: queued bytes must get their write event
   /\ lastComplete' = FALSE
-  /\ UNCHANGED <<alive, cb, sendq, kout, got, kin, rbuf, thr, pclosed, eofRep, nsent, npw, consumed, presented, pres, presFrom, ndis>>
+  /\ UNCHANGED <<alive, cb, sendq, kout, got, kin, rbuf, thr, pclosed, pabort, eofRep, nsent, npw, consumed, presented, pres, presFrom, ndis>>
 
 Disable ==
   /\ ~Tcp /\ alive = "alive" /\ st = "Running" /\ ndis < MaxDisable
   /\ st' = "Inited" /\ wrArmed' = FALSE /\ ndis' = ndis + 1
   /\ lastComplete' = FALSE
-  /\ UNCHANGED <<alive, cb, sendq, kout, got, kin, rbuf, thr, pclosed, eofRep, nsent, npw, consumed, presented, pres, presFrom>>
+  /\ UNCHANGED <<alive, cb, sendq, kout, got, kin, rbuf, thr, pclosed, pabort, eofRep, nsent, npw, consumed, presented, pres, presFrom>>
 
 (* --- onWriteCallback --------------------------------------------------------- *)
 (* Empty queue: disarm FIRST, then notify send-complete (cb = 3 while the user callback is on the stack, so a   *)
@@ -116,31 +117,51 @@ WritableCb ==
                THEN lastComplete' = TRUE /\ cb' = 4
                ELSE lastComplete' = ("complete_early" \in Bugs) /\ cb' = cb
             /\ UNCHANGED wrArmed
-  /\ UNCHANGED <<st, alive, got, kin, rbuf, thr, pclosed, eofRep, nsent, npw, consumed, presented, pres, presFrom, ndis>>
+  /\ UNCHANGED <<st, alive, got, kin, rbuf, thr, pclosed, pabort, eofRep, nsent, npw, consumed, presented, pres, presFrom, ndis>>
 
 CompleteExit ==                     \* the send-complete callback returns
   /\ cb \in {3, 4}
   /\ cb' = 0 /\ lastComplete' = FALSE
   /\ wrArmed' = (IF cb = 4 THEN FALSE ELSE wrArmed)
-  /\ UNCHANGED <<st, alive, sendq, kout, got, kin, rbuf, thr, pclosed, eofRep, nsent, npw, consumed, presented, pres, presFrom, ndis>>
+  /\ UNCHANGED <<st, alive, sendq, kout, got, kin, rbuf, thr, pclosed, pabort, eofRep, nsent, npw, consumed, presented, pres, presFrom, ndis>>
 
 (* --- the peer ------------------------------------------------------------------ *)
 PeerRead(m) ==
   /\ m \in 1 .. Len(kout)
   /\ got' = got \o Take(kout, m) /\ kout' = Drop(kout, m)
   /\ lastComplete' = FALSE
-  /\ UNCHANGED <<st, alive, cb, sendq, wrArmed, kin, rbuf, thr, pclosed, eofRep, nsent, npw, consumed, presented, pres, presFrom, ndis>>
+  /\ UNCHANGED <<st, alive, cb, sendq, wrArmed, kin, rbuf, thr, pclosed, pabort, eofRep, nsent, npw, consumed, presented, pres, presFrom, ndis>>
 
 PeerWrite(m) ==
   /\ ~pclosed /\ npw + m <= MaxPeer /\ Len(kin) + m <= KI
   /\ kin' = kin \o Seg(npw, m) /\ npw' = npw + m
   /\ lastComplete' = FALSE
-  /\ UNCHANGED <<st, alive, cb, sendq, kout, got, wrArmed, rbuf, thr, pclosed, eofRep, nsent, consumed, presented, pres, presFrom, ndis>>
+  /\ UNCHANGED <<st, alive, cb, sendq, kout, got, wrArmed, rbuf, thr, pclosed, pabort, eofRep, nsent, consumed, presented, pres, presFrom, ndis>>
 
 PeerClose ==
-  /\ ~pclosed /\ pclosed' = TRUE
+  /\ ~pclosed /\ pclosed' = TRUE /\ pabort' = pabort
   /\ lastComplete' = FALSE
   /\ UNCHANGED <<st, alive, cb, sendq, kout, got, wrArmed, kin, rbuf, thr, eofRep, nsent, npw, consumed, presented, pres, presFrom, ndis>>
+
+(* the peer aborts (SO_LINGER 0 + close, or close with unread input): data it wrote just before is still in kin; *)
+(* the drain loop of the read callback reads it and then runs into ECONNRESET in the same wake-up.                *)
+PeerAbort ==
+  /\ ~pclosed /\ pclosed' = TRUE /\ pabort' = TRUE
+  /\ lastComplete' = FALSE
+  /\ UNCHANGED <<st, alive, cb, sendq, kout, got, wrArmed, kin, rbuf, thr, eofRep, nsent, npw, consumed, presented, pres, presFrom, ndis>>
+
+(* Intended: the bytes read before the error are delivered first (RecvEnter); the close is reported by a later     *)
+(* wake-up (ReadZeroEnter: read error or read zero).  Bug "error_first": the error that ended the drain loop is    *)
+(* reported before the data read in the same wake-up is handed over.                                               *)
+RecvErrorFirst ==
+  /\ "error_first" \in Bugs /\ pabort
+  /\ st = "Running" /\ cb = 0 /\ kin # <<>>
+  /\ kin' = <<>> /\ rbuf' = rbuf \o kin
+  /\ eofRep' = eofRep + 1 /\ cb' = 2
+  /\ IF Tcp THEN st' = "Inited" /\ wrArmed' = FALSE /\ alive' = "detached"
+     ELSE alive' = alive /\ (IF UserDisablesOnEof THEN st' = "Inited" /\ wrArmed' = FALSE ELSE UNCHANGED <<st, wrArmed>>)
+  /\ lastComplete' = FALSE
+  /\ UNCHANGED <<sendq, kout, got, thr, pclosed, pabort, nsent, npw, consumed, presented, pres, presFrom, ndis>>
 
 (* --- onReadCallback, data: drain the kernel, then call the user if >= threshold --- *)
 RecvEnter ==
@@ -151,14 +172,14 @@ RecvEnter ==
         THEN /\ cb' = 1 /\ pres' = all /\ presFrom' = consumed /\ presented' = npw
         ELSE UNCHANGED <<cb, pres, presFrom, presented>>
   /\ lastComplete' = FALSE
-  /\ UNCHANGED <<st, alive, sendq, kout, got, wrArmed, thr, pclosed, eofRep, nsent, npw, consumed, ndis>>
+  /\ UNCHANGED <<st, alive, sendq, kout, got, wrArmed, thr, pclosed, pabort, eofRep, nsent, npw, consumed, ndis>>
 
 RecvExit(c) ==                      \* the callback returns having consumed c bytes
   /\ cb = 1 /\ c \in 0 .. Len(rbuf)
   /\ cb' = 0 /\ consumed' = consumed + c
   /\ rbuf' = (IF "norepresent" \in Bugs THEN <<>> ELSE Drop(rbuf, c))
   /\ lastComplete' = FALSE
-  /\ UNCHANGED <<st, alive, sendq, kout, got, wrArmed, kin, thr, pclosed, eofRep, nsent, npw, presented, pres, presFrom, ndis>>
+  /\ UNCHANGED <<st, alive, sendq, kout, got, wrArmed, kin, thr, pclosed, pabort, eofRep, nsent, npw, presented, pres, presFrom, ndis>>
 
 (* --- onReadCallback, readv() == 0 -------------------------------------------------- *)
 ReadZeroEnter ==
@@ -170,12 +191,12 @@ ReadZeroEnter ==
      ELSE /\ alive' = alive
           /\ IF UserDisablesOnEof THEN st' = "Inited" /\ wrArmed' = FALSE ELSE UNCHANGED <<st, wrArmed>>
   /\ lastComplete' = FALSE
-  /\ UNCHANGED <<sendq, kout, got, kin, rbuf, thr, pclosed, nsent, npw, consumed, presented, pres, presFrom, ndis>>
+  /\ UNCHANGED <<sendq, kout, got, kin, rbuf, thr, pclosed, pabort, nsent, npw, consumed, presented, pres, presFrom, ndis>>
 
 ReadZeroExit ==
   /\ cb = 2
   /\ cb' = 0 /\ lastComplete' = FALSE
-  /\ UNCHANGED <<st, alive, sendq, kout, got, wrArmed, kin, rbuf, thr, pclosed, eofRep, nsent, npw, consumed, presented, pres, presFrom, ndis>>
+  /\ UNCHANGED <<st, alive, sendq, kout, got, wrArmed, kin, rbuf, thr, pclosed, pabort, eofRep, nsent, npw, consumed, presented, pres, presFrom, ndis>>
 
 (* --- TcpConnection::disconnect (also from inside a callback) and the deferred delete --- *)
 LocalDisconnect ==
@@ -183,12 +204,15 @@ LocalDisconnect ==
   /\ st' = "Inited" /\ wrArmed' = FALSE
   /\ alive' = (IF "delete_now" \in Bugs THEN "freed" ELSE "detached")
   /\ lastComplete' = FALSE
-  /\ UNCHANGED <<cb, sendq, kout, got, kin, rbuf, thr, pclosed, eofRep, nsent, npw, consumed, presented, pres, presFrom, ndis>>
+  /\ UNCHANGED <<cb, sendq, kout, got, kin, rbuf, thr, pclosed, pabort, eofRep, nsent, npw, consumed, presented, pres, presFrom, ndis>>
 
 RunNextDelete ==
   /\ alive = "detached" /\ cb = 0           \* deferred tasks run after the descriptor callbacks of the pass
   /\ alive' = "freed" /\ lastComplete' = FALSE
-  /\ UNCHANGED <<st, cb, sendq, kout, got, wrArmed, kin, rbuf, thr, pclosed, eofRep, nsent, npw, consumed, presented, pres, presFrom, ndis>>
+  \* the descriptor is closed here: what is already in the kernel keeps flowing to the peer (graceful close);
+  \* bug "linger0": close() resets the connection and discards the kernel send queue
+  /\ kout' = (IF "linger0" \in Bugs THEN <<>> ELSE kout)
+  /\ UNCHANGED <<st, cb, sendq, got, wrArmed, kin, rbuf, thr, pclosed, pabort, eofRep, nsent, npw, consumed, presented, pres, presFrom, ndis>>
 
 SendAny      == \E n \in 1 .. MaxSend : Send(n)
 PeerReadAny  == \E m \in 1 .. K : PeerRead(m)
@@ -197,7 +221,7 @@ RecvExitAny  == \E c \in 0 .. (MaxPeer) : RecvExit(c)
 
 Next ==
   \/ SendAny \/ Enable \/ Disable \/ WritableCb
-  \/ PeerReadAny \/ PeerWriteAny \/ PeerClose
+  \/ PeerReadAny \/ PeerWriteAny \/ PeerClose \/ PeerAbort \/ RecvErrorFirst
   \/ RecvEnter \/ RecvExitAny \/ ReadZeroEnter \/ ReadZeroExit \/ CompleteExit
   \/ LocalDisconnect \/ RunNextDelete
 
@@ -211,13 +235,15 @@ FairSpec == Spec /\ WF_vars(WritableCb) /\ WF_vars(PeerReadAny) /\ WF_vars(Enabl
 (* ------------------------------- properties --------------------------------------- *)
 TypeOK ==
   /\ st \in {"Inited", "Running"} /\ alive \in {"alive", "detached", "freed"} /\ cb \in {0, 1, 2, 3, 4}
-  /\ wrArmed \in BOOLEAN /\ pclosed \in BOOLEAN /\ lastComplete \in BOOLEAN
+  /\ wrArmed \in BOOLEAN /\ pclosed \in BOOLEAN /\ pabort \in BOOLEAN /\ lastComplete \in BOOLEAN
   /\ Len(kout) <= K /\ Len(kin) <= KI
 
 (* nothing lost, duplicated or reordered on the way to the peer *)
 StreamConserved ==
   /\ got \o kout = Seg(0, Len(got) + Len(kout))
-  /\ alive = "alive" => got \o kout \o sendq = Seg(0, nsent)
+  \* sendq is frozen once the object is detached (what a local disconnect leaves in it is dropped by design), but what
+  \* was written to the kernel must still reach the peer: nothing between got and sendq may disappear
+  /\ got \o kout \o sendq = Seg(0, nsent)
 
 (* send-complete only when everything queued so far has been written *)
 SendCompleteOnlyWhenDrained == lastComplete => sendq = <<>>
